@@ -210,6 +210,32 @@ pub fn countersig_chain_header(g: &mut Gen, depth: usize) -> Item {
 /// A protected header with the given content (None = the empty header): decoded from wire at a
 /// drawn position and in a drawn style, or built in memory.
 pub fn gen_prot_with(g: &mut Gen, ctx: &mut Ctx, content: Option<Item>) -> Result<Prot, String> {
+    if g.ratio(1, 20) {
+        // a header built in memory around counter-signatures that were *received* (their own protected
+        // headers retain bytes, mostly not the crate's encoding): the header's map is written afresh,
+        // each received counter-signature inside it keeps its bytes
+        let n = 1 + g.below(2);
+        let mut sigs = vec![];
+        let mut items = vec![];
+        for i in 0..n {
+            let w: Vec<u8> = g.pick(&[&[][..], &[0xa0], &[0xbf, 0xff], &[0xa1, 0x18, 0x01, 0x26], &[0xa2, 0x04, 0x41, 0x31, 0x01, 0x26], &[0xbf, 0x01, 0x26, 0xff]]).to_vec();
+            let sigbytes = vec![0x50 + i as u8];
+            let wire = crate::cbor::encode(&Item::Array(vec![Item::Bytes(w.clone()), Item::Map(vec![]), Item::Bytes(sigbytes.clone())]));
+            let cs = coset::CoseSignature::from_slice(&wire).map_err(|e| format!("counter-signature {} rejected: {:?}", crate::cbor::hex(&wire), e))?;
+            sigs.push(cs);
+            items.push(Item::Array(vec![Item::Bytes(w), Item::Map(vec![]), Item::Bytes(sigbytes)]));
+        }
+        let mut h = Header { counter_signatures: sigs, ..Default::default() };
+        let mut entries = vec![];
+        if g.bool() {
+            h.key_id = g.nonempty_bytes();
+            entries.push((Item::Int(4), Item::Bytes(h.key_id.clone())));
+        }
+        entries.push((Item::Int(7), if n == 1 { items.remove(0) } else { Item::Array(items) }));
+        let p = crate::cbor::encode(&Item::Map(entries));
+        ctx.class("protected:built-around-received-counter-signatures");
+        return Ok(Prot { value: ProtectedHeader { original_data: None, header: h.clone() }, p, built: Some(h), flavour: "built-around-received-countersig" });
+    }
     let flavour = match &content {
         None => g.weighted(&[4, 2, 0]),
         Some(_) => g.weighted(&[4, 0, 4]),
